@@ -119,5 +119,15 @@ pub fn check(cx: &Cx, rep: &mut Report) {
             }
         }
     }
+    // a parent's child list is a strong handle too: a child must not terminate while its parent holds it
+    // (same evidence as C16.R1, reported here under the keep-alive property)
+    let mut sub = Report::default();
+    super::c16::check(cx, &mut sub);
+    if let Some(n) = sub.premises.get("C16.R1.child_outlives_until_parent_ends") {
+        rep.premise_n("C05.R1.child_list_keeps_alive", *n);
+    }
+    for v in sub.violations.into_iter().filter(|v| v.rule == "R1") {
+        rep.fail(P, "R1", format!("terminated_while_in_child_list;{}", v.sig), v.msg, v.at);
+    }
     rep.nontrivial = nontrivial;
 }
